@@ -1558,6 +1558,11 @@ class Repository:
                     )
                     chunk_position += chunk_size
 
+                # A longer file that already exists at the destination
+                # must not keep its tail after the restore
+                if restore_to.is_file() and restore_to.stat().st_size > chunk_position:
+                    os.truncate(restore_to, chunk_position)
+
                 total_bytes += chunk_position
 
         bytes_tracker = tqdm(
